@@ -671,7 +671,7 @@ class C13(Property):
 
     def cases(self, seed, tier, widen=1):
         rng = random.Random(f'C13-{seed}')
-        n = (600 if tier == 'quick' else 12000) * widen
+        n = (2400 if tier == 'quick' else 40000) * widen
         cs = [dict(c) for c in WITNESSES.values()]
         cs += [_gen_case(rng) for _ in range(n)]
         return cs
